@@ -179,7 +179,7 @@ class Scatterer(HoloPyObject):
 
     @property
     def num_domains(self):
-        return len(self.indicators)
+        return len(self.indicators.functions)
 
     def _index_type(self, background=0.):
         if np.iscomplex([self.n]).any() or np.iscomplex(background):
